@@ -8,6 +8,12 @@ NOTE = ("Trusted: go/ssa translation (x/tools v0.29.0), the engine's SSA semanti
         "Claim is bounded: every input inside the per-harness bounds recorded in the evidence; nothing outside them. ")
 
 claimed = {
+ "C08": dict(text="Bounded model checking (Int mode: mathematical integers with explicit wrap-around, quotient variables, products abstracted to shared bounded variables) of the 5x52 field arithmetic against the ring Z/p: "
+                  "Mul and Sqr for all operands of magnitude <= 8, Normalize for all limbs < 2^60 (canonical output, value preserved mod p), SetAdd / MulInt / Negate within their magnitude contracts, SetB32/GetB32 round trip and value.",
+             ref="6/C08", note=NOTE + "Most of these obligations are discharged by the engine's canonical linear forms and interval arithmetic before a query is needed (reported per assertion in the evidence as folded); the group law, scalar code and tables (L1-L3) are not yet covered. "),
+ "C13": dict(text="Bounded model checking (Int mode) of the wallet's payment arithmetic: parse_spend + make_signed_tx on a request 'addr=0.dddddddd' with eight arbitrary digits, arbitrary fee, -f and -useallinputs, two owned outputs of arbitrary value: "
+                  "what is written pays exactly the requested amount (minus fee under -f, never wrapping), change = inputs - payment - fee to the change address, inputs are owned and only as many as needed; otherwise the tool exits before writing.",
+             ref="6/C13", note=NOTE + "sign_tx, write_tx_file and cleanExit are stubs under the engine (native replays use the real ones and read the written file back). Signature linkage and raw-transaction immutability are not yet covered. "),
  "C04": dict(text="Bounded model checking of block connection (commitTxs via ProcessBlockTransactions, with the context-free CheckTransaction rules in front as in PostCheckBlock) for a block of coinbase + 1..2 transactions "
                   "over a symbolic UTXO pre-state satisfying the representation invariant, arbitrary script verdicts, values compared as mathematical integers (Int mode): every input exists and is unspent, "
                   "no double spend, no spend of the block's own coinbase, coinbase maturity, money range of every output and total, inputs cover outputs, coinbase claim <= subsidy + fees; subsidy schedule for every height.",
@@ -42,10 +48,8 @@ na = {
  "C03": "not yet built in this revision (planned: DESIGN.md 6/C03)",
  "C06": "histories over disk-backed state, float work sums and goroutine workers cannot be encoded as a bounded symbolic pre-state by this engine (DESIGN.md 6/C06)",
  "C07": "quantifies over OS file-system states between syscalls (crash points); nothing there is code the encoder can execute (DESIGN.md 6/C07)",
- "C08": "not yet built in this revision (planned: DESIGN.md 6/C08)",
  "C11": "quantifies over thread interleavings; the engine executes one sequential schedule (DESIGN.md 6/C11)",
  "C12": "invariant over histories of five mutually referencing global pointer maps; needs an unbounded symbolic heap (DESIGN.md 6/C12)",
- "C13": "not yet built in this revision (planned: DESIGN.md 6/C13)",
  "C14": "not yet built in this revision (planned: DESIGN.md 6/C14)",
  "C16": "real-file I/O with a background writer; snappy resolves to assembly on amd64 (no SSA) (DESIGN.md 6/C16)",
  "C17": "maps of maps driven by callbacks from parallel UTXO workers over block histories (DESIGN.md 6/C17)",
